@@ -1,6 +1,7 @@
 package server
 
 import (
+	"time"
 	"context"
 	"strings"
 
@@ -290,10 +291,11 @@ func ZZSessionRearm(n int) {
 	w := zzNewWal("l")
 	m := &zzKV{}
 	d, _ := kv.NewDB("zz", 1, &zzFactory{kv: m}, 0, nil)
-	md := &proto.SessionMetadata{TimeoutMs: 5000, Identity: "c"}
-	mb, _ := md.MarshalVT()
 	setup := &proto.WriteRequest{}
 	for i := 1; i <= n; i++ {
+		// every session has its own timeout and client identity
+		md := &proto.SessionMetadata{TimeoutMs: uint32(5000 + 1000*i), Identity: "c" + string(rune('0'+i))}
+		mb, _ := md.MarshalVT()
 		setup.Puts = append(setup.Puts, &proto.PutRequest{Key: SessionKey(SessionId(i)), Value: mb})
 	}
 	s1 := int64(1)
@@ -311,6 +313,9 @@ func ZZSessionRearm(n int) {
 	vAssert("exactly-the-stored-sessions-are-rearmed", sm.sessions.Size() == n)
 	for i := 1; i <= n; i++ {
 		vAssert("stored-session-rearmed", lc.KeepAlive(int64(i)) == nil)
+		if ss, ok := sm.sessions.Get(SessionId(i)); ok {
+			vAssert("rearmed-with-its-own-timeout-and-identity", ss.timeout == time.Duration(5000+1000*i)*time.Millisecond && ss.clientIdentity == "c"+string(rune('0'+i)))
+		}
 	}
 	vAssert("unknown-session-not-invented", lc.KeepAlive(int64(n+1)) != nil)
 	_, cerr := lc.CloseSession(&proto.CloseSessionRequest{Shard: 1, SessionId: 1})
